@@ -164,7 +164,7 @@ func (m *listsModel) apply(set []cinst, p CProps, self int, prevSibs map[int]boo
 
 // use evaluates the fixed content of the generated pseudo-elements:
 //
-//	"[" counters(c, ".") "|" counter(d) "|" counters(list-item, ".") "]"
+//	"[" counters(c, ".") "|" counter(d) "|" counters(list-item, ".") "|" counters(c, "/", upper-alpha) "|" counter(d, lower-roman) "]"
 func (m *listsModel) use(set []cinst, self int, prevSibs map[int]bool) (string, []cinst) {
 	var sb strings.Builder
 	sb.WriteString("[")
@@ -194,8 +194,34 @@ func (m *listsModel) use(set []cinst, self int, prevSibs map[int]bool) (string, 
 		}
 		sb.WriteString(strings.Join(parts, "."))
 	}
+	// the same counters through predefined counter styles (Counter Styles reference)
+	env := predefEnv()
+	var parts []string
+	for _, c := range set {
+		if c.name == "c" {
+			parts = append(parts, env.Represent("upper-alpha", c.value, nil))
+		}
+	}
+	if len(parts) == 0 {
+		parts = []string{env.Represent("upper-alpha", 0, nil)}
+	}
+	sb.WriteString("|" + strings.Join(parts, "/") + "|")
+	d := int64(0)
+	if i := innermost(set, "d"); i >= 0 {
+		d = set[i].value
+	}
+	sb.WriteString(env.Represent("lower-roman", d, nil))
 	sb.WriteString("]")
 	return sb.String(), set
+}
+
+var predefEnvCache Env
+
+func predefEnv() Env {
+	if predefEnvCache == nil {
+		predefEnvCache = NewEnv(nil)
+	}
+	return predefEnvCache
 }
 
 // uaReset is the UA style sheet's "ol, ul { counter-reset: list-item }", overridden by any author
@@ -227,7 +253,7 @@ func (m *listsModel) element(n *Node, parent, prevSib []cinst, root bool, prevSi
 	set := m.inherit(parent, prevSib, root)
 	set = m.apply(set, effectiveProps(n, hints), self, prevSibs, n.isListItem())
 	m.last = set
-	if n.isListItem() {
+	if n.isListItem() && n.ListType != "none" {
 		m.marker[n.ID+"::marker"] = set[innermost(set, "list-item")].value
 	}
 	// children: ::before, element children, ::after
